@@ -74,7 +74,8 @@ func NewSys(withRadius bool, nmacs, nsids int) *Sys {
 	for m := 1; m <= nmacs; m++ {
 		s.events = append(s.events, core.Event{"op": "PADI", "m": m, "sid": 0}, core.Event{"op": "PADR", "m": m, "sid": 0})
 		for sid := 1; sid <= nsids; sid++ {
-			ops := []string{"PADT", "LCPCR", "LCPACK", "LCPNAK", "LCPTERM", "LCPECHO", "PAPGOOD", "PAPBAD", "IPCPCR", "IPCPACK", "IP"}
+			// PAPMAL: an Authenticate-Request whose peer-id length octet runs past the end of the packet (no verdict can follow)
+			ops := []string{"PADT", "LCPCR", "LCPACK", "LCPNAK", "LCPTERM", "LCPECHO", "PAPGOOD", "PAPBAD", "PAPMAL", "IPCPCR", "IPCPACK", "IP"}
 			if withRadius {
 				ops = append(ops, "PAPSLOW", "PAPCHAL")
 			}
@@ -279,6 +280,10 @@ func (in *inst) Apply(ev core.Event) map[string]any {
 		in.deliver(src, false, session(sid, pppoe.ProtocolPAP, pap(1, "user", "good")))
 	case "PAPBAD":
 		in.deliver(src, false, session(sid, pppoe.ProtocolPAP, pap(2, "user", "bad")))
+	case "PAPMAL":
+		in.deliver(src, false, session(sid, pppoe.ProtocolPAP, []byte{pppoe.PAPCodeAuthRequest, 6, 0, 8, 200, 'u', 's', 'e'}))
+	case "PAPCUT": // only the first five bytes of a good request (chains)
+		in.deliver(src, false, session(sid, pppoe.ProtocolPAP, []byte{pppoe.PAPCodeAuthRequest, 7, 0, 5, 4}))
 	case "PAPSLOW":
 		in.deliver(src, false, session(sid, pppoe.ProtocolPAP, pap(3, "user", "slow")))
 	case "PAPCHAL":
